@@ -50,17 +50,37 @@ Rev(s) == IF s = <<>> THEN <<>> ELSE Rev(Tail(s)) \o <<Head(s)>>
 
 ChildSet(d, i) == {j \in Ids(d) : d[j].p = i /\ d[j].k # "attr"}
 AttrSet(d, i)  == {j \in Ids(d) : d[j].p = i /\ d[j].k = "attr"}
-\* descendants never include attributes
-DescSet(d, i)  == {j \in Ids(d) : j > i /\ d[j].k # "attr" /\ i \in AncSet(d, j)}
+
+\* In a pre-order numbering the subtree of i (its attributes, its descendants and their
+\* attributes) is the contiguous range i+1 .. SubtreeEnd(d, i): it ends before the first later
+\* node whose parent precedes i.
+RECURSIVE SubtreeEndFrom(_, _, _)
+SubtreeEndFrom(d, i, j) ==
+    IF j > Len(d) THEN Len(d) ELSE IF d[j].p < i THEN j - 1 ELSE SubtreeEndFrom(d, i, j + 1)
+SubtreeEnd(d, i) == SubtreeEndFrom(d, i, i + 1)
+
 \* everything below i including the attributes of i and of its descendants
-SubtreeSet(d, i) == {j \in Ids(d) : j > i /\ i \in AncSet(d, j)}
+SubtreeSet(d, i) == (i + 1) .. SubtreeEnd(d, i)
+\* descendants never include attributes
+DescSet(d, i)  == {j \in SubtreeSet(d, i) : d[j].k # "attr"}
 
 SiblingSet(d, i) == IF IsAttr(d, i) \/ d[i].p = 0 THEN {} ELSE ChildSet(d, d[i].p) \ {i}
 
+\* all nodes after i in document order that are not below i (for an attribute: the content of
+\* its element comes after it) and are not attributes
 FollowingSet(d, i) ==
-    {j \in Ids(d) : j > i /\ d[j].k # "attr" /\ i \notin AncSet(d, j)}
+    {j \in (SubtreeEnd(d, i) + 1) .. Len(d) : d[j].k # "attr"}
 PrecedingSet(d, i) ==
-    {j \in Ids(d) : j < i /\ d[j].k # "attr" /\ j \notin AncSet(d, i)}
+    {j \in 1 .. (i - 1) : d[j].k # "attr"} \ AncSet(d, i)
+
+\* the definitions by ancestor sets (the textbook reading); TLC checks on every enumerated
+\* document that the range-based definitions above agree with them (DocSanity)
+DescSetA(d, i)      == {j \in Ids(d) : j > i /\ d[j].k # "attr" /\ i \in AncSet(d, j)}
+FollowingSetA(d, i) == {j \in Ids(d) : j > i /\ d[j].k # "attr" /\ i \notin AncSet(d, j)}
+PrecedingSetA(d, i) == {j \in Ids(d) : j < i /\ d[j].k # "attr" /\ j \notin AncSet(d, i)}
+DocSanity(d) == \A i \in Ids(d) : /\ DescSet(d, i) = DescSetA(d, i)
+                                  /\ FollowingSet(d, i) = FollowingSetA(d, i)
+                                  /\ PrecedingSet(d, i) = PrecedingSetA(d, i)
 
 Axes == {"ancestor", "ancestor-or-self", "attribute", "child", "descendant",
          "descendant-or-self", "following", "following-sibling", "parent",
